@@ -43,7 +43,8 @@ def gen_cfg(rng):
         weights = [rng.choice([0.0, 1.0, 2.0]) for _ in ops]
         if sum(weights) == 0:
             weights[0] = 1.0
-    return dict(D=D, n_init=rng.randint(1, 3), tp=rng.choice([0.1, 0.5, 0.3, 0.0, 1.0]), cp=cp, ops=ops, weights=weights)
+    by_name = [rng.choice([-1, -1, 0, 1, 2]) for _ in ops]
+    return dict(D=D, n_init=rng.randint(1, 3), tp=rng.choice([0.1, 0.5, 0.3, 0.0, 1.0]), cp=cp, ops=ops, weights=weights, by_name=by_name)
 
 
 def gen_chain(rng):
@@ -132,8 +133,15 @@ def impl_main(payload):
     def make(cfg):
         cg = ComponentGenerator(input_x_dimension=cfg["D"], num_initial_load_statements=cfg["n_init"],
                                 terminal_probability=cfg["tp"], constant_probability=cfg["cp"])
+        # operators are enabled by number or by one of their documented names (the harness's own copy of the table)
+        names = {2: ["add", "addition", "+"], 3: ["subtract", "subtraction", "-"], 4: ["multiply", "multiplication", "*"],
+                 5: ["divide", "division", "/"], 6: ["sine", "sin"], 7: ["cosine", "cos"], 8: ["exponential", "exp", "e"],
+                 9: ["logarithm", "log"], 10: ["power", "pow", "^"], 11: ["absolute value", "||", "|"], 12: ["square root", "sqrt"],
+                 13: ["safe power", "safe pow"], 14: ["sineh", "sinh"], 15: ["cosineh", "cosh"]}
         for i, o in enumerate(cfg["ops"]):
-            cg.add_operator(o, None if cfg["weights"] is None else cfg["weights"][i])
+            how = cfg.get("by_name", [])
+            key = names[o][how[i] % len(names[o])] if i < len(how) and how[i] >= 0 and o in names else o
+            cg.add_operator(key, None if cfg["weights"] is None else cfg["weights"][i])
         return cg
 
     def wf_errors(stack, cfg, N):
@@ -141,7 +149,11 @@ def impl_main(payload):
         if len(stack) != N:
             errs.append("stack has %d rows, configured size %d" % (len(stack), N))
         for i, (n, p1, p2) in enumerate(stack):
-            if n in (-1, 1):
+            if n == -1:
+                # the generator and the variation operators never create INTEGER commands (parents here have none)
+                errs.append("row %d is an INTEGER command: not a terminal the generator draws, not an enabled operator" % i)
+                continue
+            if n == 1:
                 continue
             if n == 0:
                 if not 0 <= p1 < cfg["D"]:
@@ -350,6 +362,32 @@ def check(rep, proof):
         "no equation; the theorems are about the calls that return",
         "tr_variation.py (attempt bounds, dispatch order, PMF item lists, crossover cut range) is trusted",
     ]
+    if bad and not oracle_bad:
+        # the correspondence is broken: look harder for a concrete malformed child - long variation sequences (damage done to an
+        # unused row shows once later variations bring it into use) biased towards the kinds of operation that disagree
+        focus = sorted({ops[b].get("mkind") or ops[b]["kind"] for b in bad if not isinstance(b, tuple)})
+        rng2 = random.Random(rep.seed + 1)
+        chains2 = []
+        for _ in range(1500):
+            ch = gen_chain(rng2)
+            ch["N"] = rng2.choice([6, 8, 10, 12, 16])
+            ch["steps"] = [["gen"]]
+            for _ in range(rng2.randint(15, 40)):
+                k = rng2.random()
+                mk = [f for f in focus if f in KINDS]
+                if k < 0.5 and mk:
+                    ch["steps"].append(["mut", rng2.choice(mk), rng2.randrange(1 << 30)])
+                elif k < 0.9:
+                    ch["steps"].append(["mut", rng2.choice(KINDS + ["mix"]), rng2.randrange(1 << 30)])
+                else:
+                    ch["steps"].append(["cross", rng2.randrange(1 << 30), rng2.randrange(1 << 30)])
+            chains2.append(ch)
+        rc2, res2, out2, _ = vlib.run_impl("c04", dict(chains=chains2, seed=rep.seed + 1), timeout=3000)
+        if res2 is not None:
+            ob2 = [(i, o["viol"]) for i, o in enumerate(res2["ops"]) if o["viol"]]
+            if ob2:
+                ops, oracle_bad = res2["ops"], ob2
+                rep.coverage["widened_search"] = dict(chains=len(chains2), focus=focus, operations=len(res2["ops"]), oracle_violations=len(ob2))
     if oracle_bad:
         i, v = oracle_bad[0]
         o = ops[i]
